@@ -32,7 +32,11 @@ PURE_FUNCS = {
     ("ext", "math.floor"): math.floor, ("ext", "math.ceil"): math.ceil, ("ext", "numpy.floor"): math.floor,
     ("ext", "numpy.ceil"): math.ceil, ("ext", "math.trunc"): math.trunc, ("builtin", "str"): str,
     ("ext", "numpy.maximum"): max, ("ext", "numpy.minimum"): min,
+    # tolerance comparisons (documented closed forms; numpy's is asymmetric: |a - b| <= atol + rtol * |b|)
+    ("ext", "math.isclose"): math.isclose,
+    ("ext", "numpy.isclose"): lambda a, b, rtol=1e-05, atol=1e-08: abs(a - b) <= atol + rtol * abs(b),
 }
+KW_FUNCS = {("ext", "math.isclose"), ("ext", "numpy.isclose")}
 
 
 def peval(t, env: Dict[tuple, object], funcs=None):
@@ -127,9 +131,9 @@ def _peval(t, env: Dict[tuple, object], funcs=None):
         f = t[1]
         args = [peval(a, env, funcs) for a in t[2]]
         kws = tuple((n, peval(v, env, funcs)) for n, v in t[3])
-        if f in funcs and all(_is_const(a) for a in args) and not kws:
+        if f in funcs and all(_is_const(a) for a in args) and (not kws or (f in KW_FUNCS and all(_is_const(v) and n != "**" for n, v in kws))):
             try:
-                return ("const", funcs[f](*[a[1] for a in args]))
+                return ("const", funcs[f](*[a[1] for a in args], **{n: v[1] for n, v in kws}))
             except Exception:  # noqa: BLE001
                 pass
         if f in funcs and f[1] in ("max", "min", "numpy.maximum", "numpy.minimum") and len(args) == 1 and args[0][0] in ("list", "tuple") \
@@ -253,12 +257,16 @@ def fold_str_methods(t):
         return t
     t = tuple(fold_str_methods(c) if isinstance(c, tuple) else c for c in t)
     if t[0] == "call" and t[1][0] == "attr" and t[1][1][0] == "const" and isinstance(t[1][1][1], str) \
-            and t[1][2] in ("split", "lower", "upper", "strip") and all(a[0] == "const" for a in t[2]) and not t[3]:
+            and t[1][2] in ("split", "rsplit", "partition", "rpartition", "lower", "upper", "strip", "lstrip", "rstrip", "startswith",
+                            "endswith", "removeprefix", "removesuffix", "replace", "find", "index", "count", "title", "capitalize") \
+            and all(a[0] == "const" for a in t[2]) and not t[3]:
         try:
             v = getattr(t[1][1][1], t[1][2])(*[a[1] for a in t[2]])
         except Exception:  # noqa: BLE001
             return t
         if isinstance(v, list):
             return ("list", tuple(("const", x) for x in v))
+        if isinstance(v, tuple):
+            return ("tuple", tuple(("const", x) for x in v))
         return ("const", v)
     return t
